@@ -216,7 +216,7 @@ def _proto_key(proto: Any) -> str:
 
 
 def _cand_key(cand: Any) -> str:
-    return f"{cand.kind}|{cand.location}|" + ";".join(sorted(_proto_key(p) for p in cand.protoclusters))
+    return f"{cand.kind}|{cand.location}|" + ";".join(sorted({_proto_key(p) for p in cand.protoclusters}))
 
 
 def _sub_key(sub: Any) -> str:
@@ -239,6 +239,10 @@ def _area_dumps(record: Any) -> tuple:
                               for cds in record.get_cds_features()),
         "definition_cdses": sorted(
             _proto_key(p) + "|" + ",".join(sorted(cds.get_name() for cds in p.definition_cdses)) for p in protos),
+        # a protocluster that a candidate cluster lists more than once (membership above is judged as a set)
+        "members_listed_twice": sorted(
+            f"{_cand_key(c)}||{_proto_key(p)}" for c in cands for i, p in enumerate(c.protoclusters)
+            if any(p is q for q in c.protoclusters[:i])),
     }
     exact = {
         "protoclusters": [{"number": p.get_protocluster_number(), "key": _proto_key(p),
